@@ -325,10 +325,20 @@ def doc_stream(ctx, res, n):
         s.rows = cc.ListField(row, default=lambda: [])
         s.late.host = cc.StringField(default="h")
         s.late.include = cc.IncludeField(startdir=tmp)
+        s.late.auth.user = cc.StringField(default="u")
+        s.labels = cc.ListField(cc.StringField(), default=lambda: [])
+        s.quota = cc.DictField(cc.StringField(), cc.IntField(), default=lambda: {})
         with open(os.path.join(tmp, "ok-inc.json"), "w") as fh:
             fh.write('{"user": "from-include"}')
+        def touch(c):
+            # leaves assigned inside sections that are themselves never assigned; declared-default containers filled in place
+            c.late.host = "assigned-leaf"
+            c.late.auth.user = "assigned-deeper"
+            c.labels.append("in-place")
+            c.quota["cpu"] = 2
         cfg = s()
         cfg.load_tree({"name": "user-%d" % i, "db": {"host": "changed"}, "extra": [1, 2], "acct": {"user": "before"}, "zone": {"user": "before"}, "rows": [{"v": 1}]})
+        touch(cfg)
         for fmt in ["json", "yaml", "bson", "xml", "pickle"]:
             good = cfg.dumps(fmt)
             docs = {"truncated": good[: max(1, len(good) // 2)], "empty": b"", "garbage": bytes(rng.getrandbits(8) for _ in range(20)),
@@ -359,6 +369,15 @@ def doc_stream(ctx, res, n):
             if fmt == "xml":
                 docs["wrong-root"] = good.replace(b"<config", b"<other").replace(b"</config", b"</other")
             for kind, doc in docs.items():
+                if kind in ("truncated", "empty", "garbage", "not-utf8"):
+                    # "fails to parse" is the format's own verdict: a cut-off YAML document, say, can be a smaller well-formed document
+                    try:
+                        parsed = cc.ConfigFormat.get(fmt).loads(cfg, doc)
+                        if isinstance(parsed, dict):
+                            res.hist["doc:parses-after-all:" + kind] += 1
+                            continue
+                    except Exception:  # noqa
+                        pass
                 ids = C.Ids()
                 before = C.canon_state(C.dump_cfg(cfg, ids), {})
                 try:
@@ -374,6 +393,7 @@ def doc_stream(ctx, res, n):
                 if not raised:
                     cfg = s()
                     cfg.load_tree({"name": "user-%d" % i, "db": {"host": "changed"}, "extra": [1, 2], "acct": {"user": "before"}, "zone": {"user": "before"}, "rows": [{"v": 1}]})
+                    touch(cfg)
 
 
 def run(ctx, n_quick=200, n_thorough=6000):
